@@ -717,7 +717,11 @@ pub fn run(kv: &HashMap<String, String>) -> i32 {
             let mut s2 = setup(s_seed, &format!("conc-{}-ba", exp));
             let pre2 = core_state(&s2);
             s2.sim.step("ExpPre", json!({"exp": exp, "idx": 1}), |_| Ok(()));
+            // does B, run first, change anything?  (then its handler got past the early returns it has before it
+            // takes the lock -- no scripts registered, unknown or unproven peer -- and needs the lock)
+            let before_b = core_state(&s2);
             fire(&mut s2, b);
+            let b_effective = core_state(&s2) != before_b;
             fire(&mut s2, a);
             s2.sim.step("ExpSerial", json!({"exp": exp, "order": [b.name(), a.name()]}), |_| Ok(()));
             let t2 = take_buf(&s2);
@@ -771,7 +775,7 @@ pub fn run(kv: &HashMap<String, String>) -> i32 {
                 }
                 let ev = if deadlock { "Deadlock" } else { "Concurrent" };
                 let rd = rd_out.lock().unwrap().clone().unwrap_or(json!({"sk": 0, "cap": 0, "tip": 0, "tipNum": 0}));
-                s3.sim.step(ev, json!({"exp": exp, "a": a.name(), "b": b.name(), "k": k, "paused": paused, "blocked": blocked, "bNoop": b_noop, "label": label, "rd": rd}), |_| Ok(()));
+                s3.sim.step(ev, json!({"exp": exp, "a": a.name(), "b": b.name(), "k": k, "paused": paused, "blocked": blocked, "bNoop": b_noop, "bEff": b_effective, "label": label, "rd": rd}), |_| Ok(()));
                 let t3 = take_buf(&s3);
                 lines += t3.iter().filter(|c| **c == b'\n').count() as u64;
                 out.write_all(&t3).unwrap();
